@@ -437,13 +437,17 @@ class SkoolWriter:
             block.comment[0] = (0, comment)
         if multi_line or comment.startswith('{'):
             balance = comment.count('{') - comment.count('}')
-            if multi_line and balance < 0:
-                opening = '{' * (1 - balance)
+            if multi_line:
+                depth = lowest = 0
+                for c in comment:
+                    depth += (c == '{') - (c == '}')
+                    lowest = min(lowest, depth)
+                opening = '{' * (1 - lowest)
             else:
                 opening = '{'
             if comment.startswith('{'):
                 opening = opening + ' '
-            closing = '}' * max(1 + balance, 1)
+            closing = '}' * max(len(opening.rstrip()) + balance, 1)
             if comment.endswith('}'):
                 closing = ' ' + closing
         if len(block.comment) == 1:
